@@ -117,11 +117,18 @@ func (r *Recorder) on(ev *nutsdb.VerifEvent) *nutsdb.VerifFault {
 			if p >= len(ev.Data) && len(ev.Data) > 0 {
 				p = len(ev.Data) - 1 // a failed write is never complete: at least the last byte is missing
 			}
-			// A failed write must leave the record incomplete on disk: if the omitted
-			// suffix is all zero bytes the preallocated (zero-filled) segment already
-			// holds it and the "failed" write is physically complete.
-			for p > 0 && allZero(ev.Data[p:]) {
-				p--
+			// A failed write must leave the record incomplete on disk: if the bytes that are NOT written are
+			// already in the file at that place (zeros of the preallocated segment, or the tail of an earlier torn
+			// record that happened to carry the same bucket and key), the "failed" write is physically complete.
+			if ev.Kind == "write" {
+				existing := make([]byte, len(ev.Data))
+				if fd, err := os.Open(ev.Path); err == nil {
+					_, _ = fd.ReadAt(existing, ev.Off) // short read: the rest stays zero, like the file would be
+					fd.Close()
+				}
+				for p > 0 && bytes.Equal(existing[p:], ev.Data[p:]) {
+					p--
+				}
 			}
 			if ev.Kind == "write" && p > 0 && !r.FaultOnly {
 				r.Evs = append(r.Evs, Ev{Kind: "write", Path: rel, Off: ev.Off, Size: int64(p), Data: append([]byte(nil), ev.Data[:p]...)})
